@@ -487,7 +487,9 @@ def main():
             reqs += mod.gen(rng, tier)
     if reqs and not args.replay:
         import genlib
-        reqs += genlib.augment_boundaries(reqs, random.Random(seed + 7))
+        extra = genlib.augment_boundaries(reqs, random.Random(seed + 7))
+        extra += genlib.augment_structured(reqs, random.Random(seed + 11), per_op=(120 if tier == "thorough" else 40))
+        reqs += extra
     lines = corpus + reqs
     stats = {"requests": len(lines), "corpus": len(corpus)}
     samples = []
